@@ -28,6 +28,7 @@ EXTENDS Integers, Sequences, FiniteSets, TLC, Json
 CONSTANTS
   Family,      \* "types"  : one-parameter environments, every type x width x sign x shape x value pattern
                \* "select" : sub-lists of a fixed pool of parameters, every query / tag selection
+               \* "history": every history of up to MaxCalls select()/parse() calls on ONE exporter object
   Shapes,      \* set of shapes (sequences of extents) explored in family "types"
   SecShapes,   \* shapes on which the secondary attributes (path, keyword form, unit, tags, constant) are varied
   ArrStarts,   \* start positions of the value pattern used for arrays (scalars use every position)
@@ -35,6 +36,8 @@ CONSTANTS
   EnvSizes,    \* family "select": sizes of the environments (sub-lists of SelPool, in pool order)
   QuerySet,    \* family "select": queries explored (subset of Queries)
   TagSelSet,   \* family "select": tag selectors explored (subset of TagSels)
+  MaxCalls,    \* family "history": number of calls of a history
+  HistSelects, \* family "history": the select() calls of the alphabet, as <<query, tags>> pairs
   Backends     \* subset of AllBackends to explore
 
 AllBackends == {"dip", "json", "yaml", "toml", "bash", "c", "cpp", "fortran", "rust"}
@@ -342,13 +345,13 @@ Features(p, rel, be, opt, q, ts) ==
 ---------------------------------------------------------------------------
 (* Scenarios.                                                              *)
 
-VARIABLES stage, env, pick, query, tsel, be, opt
+VARIABLES stage, env, pick, query, tsel, be, opt, calls
 
-vars == <<stage, env, pick, query, tsel, be, opt>>
+vars == <<stage, env, pick, query, tsel, be, opt, calls>>
 
 NoOpt == [rename |-> TRUE, units |-> TRUE, define |-> {}, const |-> {}, bexport |-> TRUE]
 
-Init == /\ stage = "env" /\ env = <<>> /\ pick = 0 /\ query = <<>> /\ tsel = {} /\ be = "" /\ opt = NoOpt
+Init == /\ stage = "env" /\ env = <<>> /\ pick = 0 /\ query = <<>> /\ tsel = {} /\ be = "" /\ opt = NoOpt /\ calls = <<>>
 
 \* --- build the environment
 AddTypeParam ==
@@ -358,16 +361,16 @@ AddTypeParam ==
         tags \in {{}, {"t1"}}, const \in BOOLEAN :
        /\ TypeParamOK(tv, shape, start, step, path, form, unit, tags, const)
        /\ env' = <<Param(path, tv, form, shape, Elems(tv, shape, start, step), unit, tags, const)>>
-  /\ stage' = "sel" /\ UNCHANGED <<pick, query, tsel, be, opt>>
+  /\ stage' = "sel" /\ UNCHANGED <<pick, query, tsel, be, opt, calls>>
 
 AddSelParam ==
   /\ Family = "select" /\ stage = "env" /\ \E n \in EnvSizes : Len(env) < n
   /\ \E i \in (pick + 1)..Len(SelPool) : env' = Append(env, SelPool[i]) /\ pick' = i
-  /\ UNCHANGED <<stage, query, tsel, be, opt>>
+  /\ UNCHANGED <<stage, query, tsel, be, opt, calls>>
 
 CloseEnv ==
   /\ Family = "select" /\ stage = "env" /\ Len(env) \in EnvSizes
-  /\ stage' = "sel" /\ UNCHANGED <<env, pick, query, tsel, be, opt>>
+  /\ stage' = "sel" /\ UNCHANGED <<env, pick, query, tsel, be, opt, calls>>
 
 \* --- choose the selection
 ChooseSel ==
@@ -375,7 +378,7 @@ ChooseSel ==
   /\ IF Family = "types"
      THEN query' \in {<<>>, <<"*">>} /\ tsel' \in {{}, {"t1"}} /\ (query' # <<>> \/ tsel' # {} => env[1].tags # {} /\ ~env[1].const)
      ELSE query' \in QuerySet /\ tsel' \in TagSelSet
-  /\ stage' = "be" /\ UNCHANGED <<env, pick, be, opt>>
+  /\ stage' = "be" /\ UNCHANGED <<env, pick, be, opt, calls>>
 
 \* --- choose the back-end and its options
 SelNames == { Dotted(RelName(query, env[i].path)) : i \in Selected(env, query, tsel) }
@@ -398,16 +401,14 @@ OptionOK(b, o) ==
   /\ (Family = "types") => (o.rename \/ (b \in Renamers /\ env[1].path = <<"a">>  /\ Rank(env[1].shape) = 0 /\ o.define = {} /\ o.const = {}))
   /\ (Family = "types" /\ ~o.units) => env[1].unit # ""
   /\ (Family = "types" /\ ~o.bexport) => env[1].path = <<"a">>
+  /\ (Family = "history") => o.rename = opt.rename   \* rename is fixed when the exporter object is made
   /\ (Family = "select") => (o.units /\ (~o.bexport => o.rename) /\ (~o.rename => b \in Renamers \cup {"json"}))
 
 ChooseBackend ==
   /\ stage = "be"
   /\ \E b \in Backends : \E o \in Options(b) : OptionOK(b, o) /\ be' = b /\ opt' = o
-  /\ stage' = "done" /\ UNCHANGED <<env, pick, query, tsel>>
+  /\ stage' = "done" /\ UNCHANGED <<env, pick, query, tsel, calls>>
 
-Next == AddTypeParam \/ AddSelParam \/ CloseEnv \/ ChooseSel \/ ChooseBackend
-
-Spec == Init /\ [][Next]_vars
 
 ---------------------------------------------------------------------------
 (* Expected observation, verdict class, lemmas, record.                    *)
@@ -487,9 +488,81 @@ Record ==
     expect |-> Expect,
     unselected |-> Unselected ]
 
+
+---------------------------------------------------------------------------
+(* Histories.  An exporter object is used more than once: select() and     *)
+(* parse() are called in any order.  The ideal is a two-variable state     *)
+(* machine: select(q, t) REPLACES the current selection (select() without  *)
+(* arguments selects everything again), parse(options) exports exactly the *)
+(* current selection under exactly these options - nothing else of the     *)
+(* history matters.  Every parse of a history carries its own expected     *)
+(* reader observation.                                                     *)
+
+HistEnv == <<SelPool[1], SelPool[2], SelPool[3], SelPool[4]>>
+
+StartHistory ==
+  /\ Family = "history" /\ stage = "env"
+  /\ env' = HistEnv
+  /\ \E b \in Backends, r \in BOOLEAN :
+       /\ (~r) => b \in {"json", "c"}
+       /\ be' = b /\ opt' = [NoOpt EXCEPT !.rename = r]
+  /\ stage' = "hist" /\ UNCHANGED <<pick, query, tsel, calls>>
+
+\* features of a parse call that come from the calls before it
+EarlierParse(cs) == \E i \in 1..Len(cs) : cs[i].op = "parse"
+SelectAfterParse(cs) == \E i, j \in 1..Len(cs) : i < j /\ cs[i].op = "parse" /\ cs[j].op = "select"
+\* an earlier parse of the same selection (no select() in between) used the other units flag
+UnitsFlipped(cs, u) ==
+  \E i \in 1..Len(cs) : /\ cs[i].op = "parse" /\ cs[i].opt.units # u
+                        /\ \A j \in (i + 1)..Len(cs) : cs[j].op # "select"
+HistFeat(cs, o) ==
+  (IF EarlierParse(cs) THEN {"reparse"} ELSE {})
+  \cup (IF SelectAfterParse(cs) THEN {"reselect"} ELSE {})
+  \cup (IF UnitsFlipped(cs, o.units) THEN {"units_flipped"} ELSE {})
+
+ParseCall(cs) ==
+  [ op |-> "parse", class |-> Class, feat |-> RecFeat, hfeat |-> HistFeat(cs, opt),
+    query |-> Dotted(query), tags |-> tsel, opt |-> opt, expect |-> Expect, unselected |-> Unselected ]
+
+HSelect ==
+  /\ stage = "hist" /\ Len(calls) < MaxCalls - 1          \* a history ends with a parse
+  /\ \E s \in HistSelects :
+       /\ query' = s[1] /\ tsel' = s[2]
+       /\ calls' = Append(calls, [op |-> "select", query |-> Dotted(s[1]), tags |-> s[2]])
+  /\ UNCHANGED <<stage, env, pick, be, opt>>
+
+HParse ==
+  /\ stage = "hist" /\ Len(calls) < MaxCalls
+  /\ \E o \in Options(be) : OptionOK(be, o) /\ opt' = o
+  /\ UNCHANGED <<stage, env, pick, query, tsel, be>>
+  /\ calls' = Append(calls, ParseCall(calls)')
+
+\* the expectation of a parse is a function of the last selection before it and of its own options
+LastSelect(k) == IF \E i \in 1..(k - 1) : calls[i].op = "select"
+                 THEN calls[CHOOSE i \in 1..(k - 1) : calls[i].op = "select" /\ \A j \in (i + 1)..(k - 1) : calls[j].op # "select"]
+                 ELSE [op |-> "select", query |-> "", tags |-> {}]
+LemmaHistory ==
+  \A k \in 1..Len(calls) : calls[k].op = "parse" =>
+     /\ calls[k].query = LastSelect(k).query /\ calls[k].tags = LastSelect(k).tags
+     /\ \A l \in 1..Len(calls) :
+          (calls[l].op = "parse" /\ calls[l].opt = calls[k].opt /\ LastSelect(l).query = LastSelect(k).query /\ LastSelect(l).tags = LastSelect(k).tags)
+          => (calls[l].expect = calls[k].expect /\ calls[l].unselected = calls[k].unselected)
+
+HistoryRecord ==
+  [ family |-> Family, be |-> be, rename |-> opt.rename,
+    env    |-> Record.env,
+    calls  |-> calls ]
+
+Next == AddTypeParam \/ AddSelParam \/ CloseEnv \/ ChooseSel \/ ChooseBackend \/ StartHistory \/ HSelect \/ HParse
+
+Spec == Init /\ [][Next]_vars
+
 Lemmas ==
   /\ (stage = "env" /\ env = <<>>) => PrintT(ToJson([pools |-> [int |-> IntPool, float |-> FloatPool, str |-> StrPool]]))
   /\ stage = "done" =>
        /\ LemmaEnv /\ LemmaNames /\ LemmaShapes /\ LemmaSelection
        /\ PrintT(ToJson(Record))
+  /\ (stage = "hist" /\ Len(calls) > 0 /\ calls[Len(calls)].op = "parse") =>
+       /\ LemmaEnv /\ LemmaNames /\ LemmaShapes /\ LemmaSelection /\ LemmaHistory
+       /\ (Len(calls) = MaxCalls) => PrintT(ToJson(HistoryRecord))
 =============================================================================
